@@ -25,7 +25,7 @@ A_COMMON = [
     'A-N: results hold for the instantiated component counts N listed in coverage.units only (the macro is uniform in N, but no N is claimed that was not run).',
     'A-rustc: ownership, borrowing and Drop glue of safe code are as rustc defines them.',
     'R-rules: the verified text is /repo\'s text after the named mechanical rules of DESIGN.md section 3 (counts per run in coverage.extraction_rules_applied); '
-    'not extracted: Display/Debug impls, raw-pointer iterators (iter/iter_mut), RefCell-guard accessors (borrow_slice*, borrow_component*), reference transmutes.',
+    'not extracted: Display/Debug impls, raw-pointer iterators (iter/iter_mut), RefMut-guard accessors (borrow_slice_mut_*, borrow_component_mut_*), reference transmutes.',
 ]
 
 TB_COMMON = ['Verus 0.2026.09.13 (rust_verify, vstd)', 'Z3 (bundled with Verus)', 'rustc 1.98.1 front end',
